@@ -1,6 +1,6 @@
 (* Props/C03.v — property C03: symbol tables enumerate exactly; name and hash lookups are
    complete and sound.  Only statements, closed by [exact]; proofs live in
-   Proofs/C03Tables.v, C03Sym.v, C03HashFn.v, C03GenHash.v, C03Sysv.v, C03Gnu.v, C03Image.v.
+   Proofs/C03Tables.v, C03Sym.v, C03HashFn.v, C03GenHash.v, C03Sysv.v, C03Gnu.v, C03Hist.v, C03Image.v.
 
    Model: Model/C03Sections.v (sections.py: StringTableSection.get_string,
    SymbolTableSection num_symbols / get_symbol / iter_symbols / get_symbol_by_name,
@@ -22,7 +22,7 @@
    the model mirrors the repaired code, so every theorem is at full strength. *)
 From PV Require Import Base.Outcome Base.Fmt Base.Prim.
 From PV Require Import Gen.ElfLayouts Gen.PyFuns Spec.ElfGabi Spec.C03Sym Spec.C03Hash Model.C03Sections Model.C03Hash.
-From PV Require Import Proofs.C03Tables Proofs.C03HashFn Proofs.C03GenHash Proofs.C03Sysv Proofs.C03Gnu Proofs.C03Sym Proofs.C03Image.
+From PV Require Import Proofs.C03Tables Proofs.C03HashFn Proofs.C03GenHash Proofs.C03Sysv Proofs.C03Gnu Proofs.C03Sym Proofs.C03Hist Proofs.C03Image.
 Open Scope list_scope.
 Open Scope Z_scope.
 
@@ -94,6 +94,31 @@ Theorem C03_by_name_some : forall strtab rows q l,
   by_name_spec strtab rows q = Some l -> l = filter (fun v => beqb (fst v) q) (views strtab rows) /\ l <> [].
 Proof. exact by_name_spec_some. Qed.
 Print Assumptions C03_by_name_some.
+
+(* ---- the section OBJECT has state (self._symbol_name_map, None until the first lookup by name).
+   [sym_run img c None ops] (Model/C03Sections.v) runs any sequence of calls on one fresh object:
+   num_symbols, get_symbol(n), an enumeration abandoned after k steps, get_symbol_by_name.  Every call of
+   EVERY history answers what the stateless specification [answer] (Spec/C03Sym.v) says ... *)
+Theorem C03_history_free : forall le is64 es rows strtab img off size stroff,
+  symtab_ok is64 es rows = true -> names_ok strtab rows = true ->
+  placed img off (encode_symtab le is64 rows) -> placed img stroff strtab ->
+  es * zlen rows <= size < es * (zlen rows + 1) ->
+  forall calls, forallb (call_ok rows) calls = true ->
+  snd (sym_run img (cfg le is64 off size es stroff) None (map op_of calls))
+  = map (fun call => obs_of (answer strtab rows call)) calls.
+Proof. exact history_free. Qed.
+Print Assumptions C03_history_free.
+
+(* ... in particular lookup by name returns exactly the symbols bearing the name after any history *)
+Theorem C03_by_name_after_history : forall le is64 es rows strtab img off size stroff,
+  symtab_ok is64 es rows = true -> names_ok strtab rows = true ->
+  placed img off (encode_symtab le is64 rows) -> placed img stroff strtab ->
+  es * zlen rows <= size < es * (zlen rows + 1) ->
+  forall calls q, forallb (call_ok rows) calls = true ->
+  snd (sym_run img (cfg le is64 off size es stroff) None (map op_of calls ++ [OpByName q]))
+  = map (fun call => obs_of (answer strtab rows call)) calls ++ [ObsByName (Ok (by_name_spec strtab rows q))].
+Proof. exact by_name_after_history. Qed.
+Print Assumptions C03_by_name_after_history.
 
 (* the extended section index of symbol i is entry i of the companion SHT_SYMTAB_SHNDX table *)
 Theorem C03_section_index_exact : forall le es xrows img off size,
@@ -360,4 +385,15 @@ Example C03_ex_results :
   gnu_hash_section_get_symbol ex_img c 158 [102; 111; 111; 67; 88] = Ok None /\
   elf_hash_section_number_of_symbols ex_img c 123 = Ok 4 /\
   gnu_hash_section_number_of_symbols ex_img c 158 = Ok 4.
+Proof. vm_compute. repeat split; reflexivity. Qed.
+
+(* a history on that image: peek at the first symbol, abandon; look fooBY up (it lies beyond the stop
+   point); abandon another enumeration after two steps; look "" and an absent name up *)
+Example C03_ex_history :
+  let c := cfg true true 22 100 25 3 in
+  let calls := [CIter 1; CByName [102; 111; 111; 66; 89]; CNum; CIter 2; CGet 3; CByName []; CByName [120]] in
+  forallb (call_ok ex_rows) calls = true /\
+  snd (sym_run ex_img c None (map op_of calls)) = map (fun call => obs_of (answer ex_strtab ex_rows call)) calls /\
+  answer ex_strtab ex_rows (CByName [102; 111; 111; 66; 89]) = AByName (Some [vth (views ex_strtab ex_rows) 2]) /\
+  answer ex_strtab ex_rows (CByName [120]) = AByName None.
 Proof. vm_compute. repeat split; reflexivity. Qed.
